@@ -468,7 +468,10 @@ where
     let res_log_delta = a.log_delta().min(b.log_delta());
 
     let res_offset = (res_log_budget + res_log_delta).saturating_sub(res.max_k().as_usize());
-    let cnv_offset = a.effective_k().max(b.effective_k()) + res_offset;
+    // The operands sit at 2^-log_budget: the product has to move up by
+    // lhs.log_budget + rhs.log_budget - res_log_budget = max(log_budget) + max(log_delta)
+    // (equal to max(effective_k) unless one operand has the larger budget and the smaller precision).
+    let cnv_offset = a.log_budget().max(b.log_budget()) + a.log_delta().max(b.log_delta()) + res_offset;
 
     Ok((
         checked_log_budget_sub("mul", res_log_budget, res_offset)?,
